@@ -96,12 +96,93 @@ pub fn render(adef: &Value, syntax: &str) -> Result<String, String> {
     STYLE.with(|s| *s.borrow_mut() = (syntax.to_string(), style));
     ALT.with(|a| a.set(adef.get("spell").and_then(Value::as_str) == Some("alt")));
     ITEMS_REV.with(|a| a.set(adef.get("item_order").and_then(Value::as_str) == Some("rev")));
+    let rev = adef.get("key_order").and_then(Value::as_str) == Some("rev");
+    let tree = |no_null: bool| -> Result<M, String> {
+        let mut t = manifest_tree(adef, no_null)?;
+        if rev {
+            rev_device(&mut t);
+        }
+        Ok(t)
+    };
     match syntax {
         "dsl" => render_dsl(adef),
-        "json" => Ok(emit_json(&manifest_tree(adef, false)?)),
-        "yaml" => Ok(emit_yaml(&manifest_tree(adef, false)?)),
-        "toml" => emit_toml(&manifest_tree(adef, true)?),
+        "json" => Ok(emit_json(&tree(false)?)),
+        "yaml" => Ok(emit_yaml(&tree(false)?)),
+        "toml" => emit_toml(&tree(true)?),
         other => Err(format!("unknown syntax {other:?}")),
+    }
+}
+
+// ---------------------------------------------------------------------------------------------
+// Key order (ADEF key `key_order`: `rev`). A manifest map is unordered as far as the documented
+// language goes: the attribute keys of an object, a field, an override, a repeat or an extended
+// variant may be written in any order, and an inline enum's `name` / `description` may follow its
+// variants. (The order of objects, fields and variants is part of the definition and is kept.)
+// Scalars stay in front of nested maps, which is what lets the TOML emitter keep the order.
+// ---------------------------------------------------------------------------------------------
+
+fn rev_attrs(es: &mut Vec<(String, M)>) {
+    let is_late = |k: &str| matches!(k, "fields" | "fields_in" | "fields_out" | "objects" | "override");
+    let (late, mut early): (Vec<_>, Vec<_>) = es.drain(..).partition(|(k, _)| is_late(k));
+    // map-valued attributes (repeat, an enum conversion) go behind the scalar ones, both reversed
+    let (mut maps, mut scalars): (Vec<_>, Vec<_>) = early.drain(..).partition(|(_, v)| matches!(v, M::Map(_)));
+    scalars.reverse();
+    maps.reverse();
+    es.extend(scalars);
+    es.extend(maps);
+    es.extend(late);
+}
+
+fn rev_enum(es: &mut Vec<(String, M)>) {
+    let (head, mut variants): (Vec<_>, Vec<_>) = es.drain(..).partition(|(k, _)| k == "name" || k == "description");
+    for (_, v) in variants.iter_mut() {
+        if let M::Map(ve) = v {
+            ve.reverse();
+        }
+    }
+    es.extend(variants);
+    es.extend(head.into_iter().rev());
+}
+
+fn rev_field(f: &mut M) {
+    if let M::Map(es) = f {
+        for (k, v) in es.iter_mut() {
+            if k == "conversion" || k == "try_conversion" {
+                if let M::Map(ee) = v {
+                    rev_enum(ee);
+                }
+            }
+        }
+        rev_attrs(es);
+    }
+}
+
+fn rev_object(o: &mut M) {
+    if let M::Map(es) = o {
+        for (k, v) in es.iter_mut() {
+            match (k.as_str(), v) {
+                ("repeat", M::Map(r)) => r.reverse(),
+                ("fields" | "fields_in" | "fields_out", M::Map(fs)) => fs.iter_mut().for_each(|(_, f)| rev_field(f)),
+                ("objects", M::Map(os)) => os.iter_mut().for_each(|(_, c)| rev_object(c)),
+                ("override", ov) => rev_object(ov),
+                _ => {}
+            }
+        }
+        rev_attrs(es);
+    }
+}
+
+fn rev_device(t: &mut M) {
+    if let M::Map(top) = t {
+        for (k, v) in top.iter_mut() {
+            if k == "config" {
+                if let M::Map(c) = v {
+                    c.reverse();
+                }
+            } else {
+                rev_object(v);
+            }
+        }
     }
 }
 
